@@ -9,7 +9,10 @@
       rewrite : Flags → Dict → List PyVal → Except Err (List PyVal)
 
   over JSON-like Python values.  Every Python statement of the loop body is transcribed in
-  order (defects included); Python exceptions are the `Err` results.  What is NOT here:
+  order (defects included); Python exceptions are the `Err` results.  The model follows the
+  repaired code: fix 01d6934 (ReLU keys of the original class) and the fix round's
+  "Bidirectional only when selected", "q_name = None at the top of the loop body" and the
+  dedicated SeparableConv1D/2D branch.  What is NOT here:
   `convert_to_folded_model` (its result — the folded model's layer list and `layers_to_fold` —
   is an input), `quantized_model_from_json` and the weight transfer (Keras runtime).
 -/
@@ -304,8 +307,7 @@ def convApply (look : Look) (bits : String) (kernelKey qn : String) (kq bq : PyV
   let l ← setCfg l "bias_quantizer" bq
   actStep look qn bits l
 
-/-- Dense / Conv1D / Conv2D / Conv2DTranspose / SeparableConv1D / SeparableConv2D
-    (utils.py:734-792) and DepthwiseConv2D (794-845): the two branches are the same text up to
+/-- Dense / Conv1D / Conv2D / Conv2DTranspose and DepthwiseConv2D: the two branches are the same text up to
     the kernel key, the class test of the folding condition and the two class names. -/
 def convBranch (F : Flags) (look : Look) (kernelKey : String) (canFold : Bool)
     (foldName plainName : String) (l : PyVal) : BranchRes := do
@@ -318,6 +320,27 @@ def convBranch (F : Flags) (look : Look) (kernelKey : String) (canFold : Bool)
   match kb.1 with
   | .none => pure (lq.1, some lq.2, false)
   | _ => do pure (← convApply look F.actBits kernelKey lq.2 kb.1 kb.2 lq.1, some lq.2, true)
+
+/-- tail of the SeparableConv1D/2D branch once the depthwise quantizer is not None -/
+def sepApply (look : Look) (bits : String) (qn : String) (dq pq bq : PyVal) (l : PyVal) : R PyVal := do
+  let l ← setCls l qn
+  let l ← setCfg l "depthwise_quantizer" dq
+  let l ← setCfg l "pointwise_quantizer" pq
+  let l ← setCfg l "bias_quantizer" bq
+  actStep look qn bits l
+
+/-- SeparableConv1D / SeparableConv2D (the dedicated branch added by the fix round, modelled on the
+    DepthwiseConv2D one without folding): QSeparableConv1D/2D take `depthwise_quantizer` and
+    `pointwise_quantizer`; the layer is converted when a depthwise quantizer is configured. -/
+def sepBranch (F : Flags) (look : Look) (cn : String) (l : PyVal) : BranchRes := do
+  let qn := "Q" ++ cn
+  let dq ← look qn (some "depthwise_quantizer")
+  let pq ← look qn (some "pointwise_quantizer")
+  let ub ← sub (← sub l "config") "use_bias"
+  let bq ← biasLook look qn ub
+  match dq with
+  | .none => pure (l, some qn, false)      -- "This is to avoid unwanted transformations."
+  | _ => do pure (← sepApply look F.actBits qn dq pq bq l, some qn, true)
 
 /-- the inner layer of a Bidirectional wrapper: the one-entry dictionary
     `{inner_name: get_config(quantizer_config, layer, "QBidirectional")}` and `quantize_rnn` -/
@@ -339,15 +362,24 @@ def bidirBackward (look : Look) (bits : String) (l : PyVal) : R PyVal := do
     | none => pure l
   | _ => throw .typeError
 
-/-- Bidirectional (utils.py:850-863) -/
-def bidirBranch (F : Flags) (look : Look) (st : Option String) (l : PyVal) : BranchRes := do
+/-- lines after the selection test of the Bidirectional branch: both wrapped layers through
+    `quantize_rnn`, then the rename -/
+def bidirApply (F : Flags) (look : Look) (l : PyVal) : R PyVal := do
   let cfg ← sub l "config"
   let inner ← sub cfg "layer"
   let inner' ← bidirInner look F.actBits inner
   let l ← setCfg l "layer" inner'
   let l ← bidirBackward look F.actBits l
-  let l ← setCls l "QBidirectional"
-  pure (l, st, true)
+  setCls l "QBidirectional"
+
+/-- Bidirectional.  After the fix round the branch starts with
+    `if get_config(quantizer_config, layer, "QBidirectional", "kernel_quantizer") is None: continue`
+    ("This is to avoid unwanted transformations"), so an unselected wrapper is left alone. -/
+def bidirBranch (F : Flags) (look : Look) (st : Option String) (l : PyVal) : BranchRes := do
+  let kq ← look "QBidirectional" (some "kernel_quantizer")
+  match kq with
+  | .none => pure (l, st, false)
+  | _ => do pure (← bidirApply F look l, st, true)
 
 /-- which of QActivation / QAdaptiveActivation is consulted first (utils.py:866-877) -/
 def actLookup (F : Flags) (look : Look) : R (PyVal × Bool) :=
@@ -506,8 +538,7 @@ def poolBranch (F : Flags) (look : Look) (cn : String) (l : PyVal) : BranchRes :
   | .none => pure (l, some qn, false)
   | _ => do pure (← poolApply F look qn aq l, some qn, true)
 
-def denseLike : List String :=
-  ["Dense", "Conv1D", "Conv2D", "Conv2DTranspose", "SeparableConv1D", "SeparableConv2D"]
+def denseLike : List String := ["Dense", "Conv1D", "Conv2D", "Conv2DTranspose"]
 
 /-- dispatch on `layer["class_name"]` (the `if / elif` chain of the loop body) -/
 def branch (F : Flags) (look : Look) (bnIn : R Bool) (st : Option String) (l : PyVal) : BranchRes := do
@@ -520,6 +551,7 @@ def branch (F : Flags) (look : Look) (bnIn : R Bool) (st : Option String) (l : P
         ("Q" ++ cn ++ "Batchnorm") ("Q" ++ cn) l
     else if cn = "DepthwiseConv2D" then
       convBranch F look "depthwise_quantizer" true "QDepthwiseConv2DBatchnorm" "QDepthwiseConv2D" l
+    else if cn = "SeparableConv1D" ∨ cn = "SeparableConv2D" then sepBranch F look cn l
     else if cn = "SimpleRNN" ∨ cn = "LSTM" ∨ cn = "GRU" then do
       pure (← quantizeRnn look F.actBits l, st, true)
     else if cn = "Bidirectional" then bidirBranch F look st l
@@ -530,21 +562,24 @@ def branch (F : Flags) (look : Look) (bnIn : R Bool) (st : Option String) (l : P
     else pure (l, st, true)
   | _ => pure (l, st, true)                    -- a non-string class name equals no literal
 
-/-- end of the loop body (utils.py:1010-1012):
+/-- end of the loop body:
     `registered_name = layer.pop("registered_name", None)`
-    `if registered_name: layer["registered_name"] = q_name or registered_name` -/
+    `if registered_name: layer["registered_name"] = q_name or registered_name`
+    (`st = none` is `q_name = None`, the value every iteration now starts with) -/
 def fixRegistered (l : PyVal) (st : Option String) : R PyVal := do
   let (l, reg) ← popReg l
   if truthy reg then
     match st with
-    | none => throw .unboundLocal
+    | none => setItem l "registered_name" reg
     | some q => setItem l "registered_name" (if q ≠ "" then .str q else reg)
   else pure l
 
-/-- one iteration of `for layer in layers:` given the lookup functions -/
-def stepCore (F : Flags) (look : Look) (bnIn : R Bool) (st : Option String) (l : PyVal) :
+/-- one iteration of `for layer in layers:` given the lookup functions.  The body now starts with
+    `q_name = None` (fix round), so the value `_st` left by the previous iteration is not read;
+    the parameter is kept so that `step` / `rewriteFrom` keep their shape. -/
+def stepCore (F : Flags) (look : Look) (bnIn : R Bool) (_st : Option String) (l : PyVal) :
     R (PyVal × Option String) := do
-  let (l', st', fin) ← branch F look bnIn st l
+  let (l', st', fin) ← branch F look bnIn none l
   if fin then do pure (← fixRegistered l' st', st') else pure (l', st')
 
 /-- the BatchNormalization membership test on the caller's dictionary -/
@@ -560,7 +595,8 @@ def bnPresent (qc : Dict) (l : PyVal) : R Bool := do
 def step (F : Flags) (qc : Dict) (st : Option String) (l : PyVal) : R (PyVal × Option String) :=
   stepCore F (getConfig qc l) (bnPresent qc l) st l
 
-/-- the whole loop; `st` = the variable `q_name` (unbound at the start) -/
+/-- the whole loop; `st` = the variable `q_name` as the previous iteration left it (no longer read
+    by `step`, see `stepCore`) -/
 def rewriteFrom (F : Flags) (qc : Dict) : Option String → List PyVal → R (List PyVal)
   | _, [] => pure []
   | st, l :: ls => do
